@@ -1069,7 +1069,7 @@ func Run(ctx *common.Ctx) {
 			ctx.Meta.Evaluations++
 		}
 		// a function that is not destructive must leave its arguments alone
-		if !f.destr && f.layout != "assoc" && !(f.lisp == "reduce" && c.key != "") {
+		if !f.destr && f.layout != "assoc" {
 			for _, form := range []int{asList, asVec} {
 				if f.listOnly && form != asList {
 					continue
